@@ -144,7 +144,23 @@ func (o *optionDefinitions) asOptions() []util.Option { //nolint: gocyclo,gocogn
 		case transportSystemOpenArgs:
 			strSliceVal, ok := opt.Value.([]string)
 			if !ok {
-				panic("option transportSystemOpenArgs value must be an array of strings")
+				// yaml (and json) unmarshal a list of strings into an interface{} as
+				// []interface{}, never as []string
+				ifaceSliceVal, ifaceOk := opt.Value.([]interface{})
+				if !ifaceOk {
+					panic("option transportSystemOpenArgs value must be an array of strings")
+				}
+
+				strSliceVal = make([]string, len(ifaceSliceVal))
+
+				for idx, v := range ifaceSliceVal {
+					strVal, strOk := v.(string)
+					if !strOk {
+						panic("option transportSystemOpenArgs value must be an array of strings")
+					}
+
+					strSliceVal[idx] = strVal
+				}
 			}
 
 			opts[i] = options.WithSystemTransportOpenArgs(strSliceVal)
